@@ -1064,7 +1064,10 @@ pub fn family<F: VF>(ctx: &mut Ctx) {
     let mut combos: Vec<(Vec<usize>, Vec<usize>)> = vec![(vec![3, 2], vec![2, 3]), (vec![3, 1], vec![5, 1]), (vec![2, 1], vec![1, 2])];
     if th {
         combos.push((vec![3, 2, 1], vec![1, 2, 1]));
-        combos.push((vec![3, 2], vec![9, 5]));
+        // (heights [3, 2] with leaf widths 9 and 5 is NOT in the table: a 9-element leaf is absorbed by
+        // two permutations, and with the per-call injectivity instances of the ideal-hash model the
+        // solvers return models that do not replay natively - 216 inconclusive obligations in the
+        // last thorough run; multi-permutation leaves are covered for single trees only)
         combos.push((vec![3, 0], vec![4, 1]));
     }
     for (ci, (heights, widths)) in combos.iter().enumerate() {
